@@ -179,6 +179,8 @@ def layout_script(h, rng, store_one, n_events, checkpoint, restarts=True, compac
         elif op[0] == "restart":
             h.end(op[1])
             h.life(end="shutdown")
+            for t in h.types:
+                h.select(t, tag="rebase")
             checkpoint("restart-" + op[1])
         elif op[0] == "cp":
             checkpoint("cp")
@@ -188,6 +190,7 @@ def layout_script(h, rng, store_one, n_events, checkpoint, restarts=True, compac
 class Base:
     design_ref = "DESIGN.md §5"
     level = "exploration"
+    opts = {"rebase_after_restart": True}
     level_note = ("Sampling over seeded histories, not enumeration. Trusted: the reference model (core typed fragment), "
                   "libc interposition, single runtime thread with gates for the interleavings that matter.")
 
@@ -334,6 +337,7 @@ class C04(Base):
 class C05(Base):
     id = "C05"
     level = "fault_enumeration"
+    opts = {}
     technique = "deterministic simulation: compaction on the simulated clock, answer-invariance oracle, enumerated crash points and errno faults"
     level_text = ("Seeded multi-type histories produce segment populations in which types share segments only partially; the real "
                   "background compactor is run by advancing the simulated clock, round after round. The full answer set (selection "
@@ -570,7 +574,7 @@ class C11(Base):
     clauses = {"mutated-published", "removed-while-named", "index-in-place", "index-undecodable", "index-names-missing-dir",
                "dir-reuse", "read-unpublished", "named-but-absent", "incomplete-segment", "panic"}
     budgets = {"quick": {"histories": 8, "crash_limit": 50}, "thorough": {"histories": 120, "crash_limit": 100000}}
-    opts = {"segments": True}
+    opts = {"segments": True, "rebase_after_restart": True}
 
     @staticmethod
     def nontrivial(plan, res):
@@ -616,9 +620,149 @@ class C11(Base):
             yield engine.crash_variant(plan, li, k)
 
 
+
+# ====================================================================== query workloads (C02, C07, C09, C10)
+
+import datetime as _dt
+
+
+def iso(ts):
+    return _dt.datetime.fromtimestamp(ts, _dt.timezone.utc).strftime("%Y-%m-%dT%H:%M:%SZ")
+
+
+Q_SCHEMA = {"k": "int", "n": "int", "s": "string", "e": ["a", "b", "c"], "o": "int | null", "d": "datetime"}
+S_POOL = ["x", "y", "zed", "alpha", "beta"]
+D_BASE = 1_735_689_600   # 2025-01-01T00:00:00Z
+
+
+def q_payload(k, rng):
+    return {"k": k, "n": rng.choice([-3, -1, 0, 1, 2, 2, 5, 9, 40]), "s": rng.choice(S_POOL), "e": rng.choice(["a", "b", "c"]),
+            "o": rng.choice([None, None, 0, 1, 7, -2]), "d": D_BASE + rng.choice([0, 1, 3599, 3600, 86399, 86400, 200000, 2_700_000])}
+
+
+def gen_atom(rng, feats):
+    f = rng.choice(feats)
+    if f == "n":
+        if rng.random() < 0.2:
+            return ("in", "n", rng.sample([-3, -1, 0, 1, 2, 5, 9, 40, 77], rng.randrange(1, 4)))
+        return ("cmp", "n", rng.choice(["=", "!=", "<", "<=", ">", ">="]), rng.choice([-3, -1, 0, 1, 2, 5, 9, 40, -100, 100, 3]))
+    if f == "k":
+        return ("cmp", "k", rng.choice(["=", "!=", "<", "<=", ">", ">="]), rng.randrange(0, 30))
+    if f == "s":
+        if rng.random() < 0.25:
+            return ("in", "s", rng.sample(S_POOL + ["nope"], rng.randrange(1, 4)))
+        return ("cmp", "s", rng.choice(["=", "!="]), rng.choice(S_POOL + ["nope"]))
+    if f == "e":
+        if rng.random() < 0.25:
+            return ("in", "e", rng.sample(["a", "b", "c", "zz"], rng.randrange(1, 3)))
+        return ("cmp", "e", rng.choice(["=", "!="]), rng.choice(["a", "b", "c", "zz"]))
+    if f == "o":
+        return ("cmp", "o", rng.choice(["=", "<", ">", ">=", "<="]), rng.choice([0, 1, 7, -2, 3]))
+    if f == "d":
+        return ("cmp", "d", rng.choice(["<", "<=", ">", ">=", "="]), D_BASE + rng.choice([0, 1, 3600, 86400, 200000, 5_000_000]))
+    raise ValueError(f)
+
+
+def gen_pred(rng, feats, depth=0):
+    x = rng.random()
+    if depth >= 2 or x < 0.45:
+        return gen_atom(rng, feats)
+    if x < 0.65:
+        return ("and", gen_pred(rng, feats, depth + 1), gen_pred(rng, feats, depth + 1))
+    if x < 0.85:
+        return ("or", gen_pred(rng, feats, depth + 1), gen_pred(rng, feats, depth + 1))
+    return ("not", gen_pred(rng, feats, depth + 1))
+
+
+def query_history(prop, seed, i, make_queries, n_events=(6, 24), feats=None, shards=(1, 2, 3), schema=None, payload=None):
+    rng = rnd(prop, seed, i)
+    cfg = {"shard_count": rng.choice(shards), "fill_factor": rng.choice([1, 2, 3]), "event_per_zone": rng.choice([1, 2, 3, 4]),
+           "segments_per_merge": rng.choice([2, 3]), "wal": {"flush_each_write": True, "buffered": False}}
+    h = H(seed, prop, cfg, uid_salt=f"{prop}-{seed}-{i}")
+    h.life(end="shutdown")
+    h.define("q", schema or Q_SCHEMA)
+    ctxs = [f"c{j}" for j in range(rng.choice([1, 2, 4]))]
+    queries = make_queries(rng, ctxs)
+
+    def st():
+        k = h.new_k()
+        h.store("q", rng.choice(ctxs), (payload or q_payload)(k, rng), k=k)
+
+    def cp(tag):
+        h.step({"op": "barrier", "meta": {"kind": "checkpoint", "tag": tag}})
+        for item in queries:
+            kind, q = item[0], item[1]
+            h.query(q, kind=kind, tag=tag, feat=item[2] if len(item) > 2 else None)
+    layout_script(h, rng, st, rng.randrange(*n_events), cp)
+    return h.done()
+
+
+ALL_ATOM_KINDS = ([("n", op) for op in ["=", "!=", "<", "<=", ">", ">=", "IN"]] + [("k", op) for op in ["=", "!=", "<", ">="]]
+                  + [("s", op) for op in ["=", "!=", "IN"]] + [("e", op) for op in ["=", "!=", "IN"]]
+                  + [("o", op) for op in ["=", "<", "<=", ">", ">="]] + [("d", op) for op in ["<", "<=", ">", ">=", "="]])
+
+
+def atom_of_kind(rng, field, op):
+    lits = {"n": [-3, -1, 0, 1, 2, 5, 9, 40, -100, 100, 3], "k": list(range(0, 30)), "s": S_POOL + ["nope"],
+            "e": ["a", "b", "c", "zz"], "o": [0, 1, 7, -2, 3],
+            "d": [D_BASE + x for x in [0, 1, 3600, 86400, 200000, 5_000_000]]}[field]
+    if op == "IN":
+        return ("in", field, rng.sample(lits, rng.randrange(1, 4)))
+    return ("cmp", field, op, rng.choice(lits))
+
+
+def gen_clean_pred(rng, kinds, depth=0):
+    x = rng.random()
+    if depth >= 2 or x < 0.4:
+        return atom_of_kind(rng, *rng.choice(kinds))
+    if x < 0.7:
+        return ("and", gen_clean_pred(rng, kinds, depth + 1), gen_clean_pred(rng, kinds, depth + 1))
+    return ("or", gen_clean_pred(rng, kinds, depth + 1), gen_clean_pred(rng, kinds, depth + 1))
+
+
+class C02(Base):
+    id = "C02"
+    technique = "deterministic simulation: one history walked through storage layouts (memory, flushed, compacted, clean/kill restart); model + layout-invariance oracles"
+    level_text = ("Seeded schemas/event multisets and typed predicates (=, !=, <, <=, >, >=, IN, AND, OR, NOT, parentheses, FOR, "
+                  "SINCE) rendered to command text; the same query set is asked at every layout checkpoint of one history (all in "
+                  "memory, after FLUSH, after compaction rounds, after clean restart, after kill-restart; zone sizes 1-4 so zones mix "
+                  "matching and non-matching rows; 1-3 shards). Model oracle: returned set == events satisfying the predicate. "
+                  "Invariance oracle: the set of events returned for the same question and the same history is identical at every "
+                  "checkpoint. Single-atom probes attribute a failure to one (field type, operator) pair; compound predicates are "
+                  "drawn from the atoms whose probes hold.")
+    clauses = {"query-missing", "query-extra", "foreign-row", "duplicate-row", "layout-variance", "frames", "read-error", "panic"}
+    budgets = {"quick": {"histories": 150}, "thorough": {"histories": 5000}}
+    CLEAN = None   # atom kinds usable in compound predicates (None = all, used for classification runs)
+
+    @staticmethod
+    def gen(seed, tier):
+        def mk(rng, ctxs):
+            qs = []
+            kinds = rng.sample(ALL_ATOM_KINDS, 6)
+            for field, op in kinds:
+                a = atom_of_kind(rng, field, op)
+                if rng.random() < 0.2:
+                    qs.append(("query", {"type": "q", "where": ("not", a)}, f"not:{field}:{op}"))
+                else:
+                    qs.append(("query", {"type": "q", "where": a}, f"cmp:{field}:{op}"))
+            clean = C02.CLEAN if C02.CLEAN is not None else ALL_ATOM_KINDS
+            for _ in range(rng.randrange(2, 5)):
+                q = {"type": "q", "where": gen_clean_pred(rng, clean)}
+                feat = "compound"
+                if rng.random() < 0.3:
+                    q["ctx"] = rng.choice(ctxs)
+                    feat = "compound+for"
+                qs.append(("query", q, feat))
+            qs.append(("query", {"type": "q", "ctx": rng.choice(ctxs)}, "for"))
+            qs.append(("query", {"type": "q"}, "all"))
+            return qs
+        for i in range(C02.budgets[tier]["histories"]):
+            yield query_history("C02", seed, i, mk)
+
+
 # ====================================================================== registry
 
-PROFILES = {"C01": C01, "C03": C03, "C04": C04, "C05": C05, "C11": C11, "C12": C12, "C18": C18}
+PROFILES = {"C01": C01, "C02": C02, "C03": C03, "C04": C04, "C05": C05, "C11": C11, "C12": C12, "C18": C18}
 
 NOT_APPLICABLE = {
     "C08": "pure function of (zone value multiset, probe): no schedule, clock, fault or history in it; its end-to-end consequence is covered by C02's layout-invariance oracle",
@@ -626,7 +770,7 @@ NOT_APPLICABLE = {
     "C17": "totality of parsing/dispatch is a pure function of the input string; no interleaving, crash or clock involved",
     "C20": "pure function of (result batch, renderer); no nondeterminism or fault surface",
 }
-for _p in ("C02","C06","C07","C09","C10","C13","C14","C15","C19"):
+for _p in ("C06","C07","C09","C10","C13","C14","C15","C19"):
     NOT_APPLICABLE.setdefault(_p, "check under construction in this session (claimed by DESIGN.md; profile not yet registered)")
 
 
